@@ -3,6 +3,7 @@ package harness
 import (
 	"context"
 	"fmt"
+	"math/big"
 	"sync"
 	"testing"
 	"time"
@@ -65,20 +66,22 @@ func c18Expected(c c18Case) (exp []c18Ev, nontrivial bool) {
 		maxSeen = b
 		d := b - c.Start
 		e := 1 + d/c.N
-		thr := c.Pct * c.N
-		if m := (c.N - 1) * 100; thr > m {
+		// (arbitrary precision: for very long epochs pct*N does not fit 64 bits)
+		thr := new(big.Int).Mul(new(big.Int).SetUint64(c.Pct), new(big.Int).SetUint64(c.N))
+		if m := new(big.Int).Mul(new(big.Int).SetUint64(c.N-1), big.NewInt(100)); thr.Cmp(m) > 0 {
 			thr = m
 		}
 		if lastEpochSeen != 0 && e > lastEpochSeen+1 {
 			nontrivial = true // a whole epoch was skipped
 		}
 		lastEpochSeen = e
-		if (d%c.N)*100 >= thr && !notified[e] {
+		pos := new(big.Int).Mul(new(big.Int).SetUint64(d%c.N), big.NewInt(100))
+		if pos.Cmp(thr) >= 0 && !notified[e] {
 			notified[e] = true
 			exp = append(exp, c18Ev{e, b})
 			// first block of the epoch at/after threshold: ceil(thr/100)
-			thrBlock := (thr + 99) / 100
-			if d%c.N != thrBlock {
+			thrBlock := new(big.Int).Div(new(big.Int).Add(thr, big.NewInt(99)), big.NewInt(100))
+			if new(big.Int).SetUint64(d%c.N).Cmp(thrBlock) != 0 {
 				nontrivial = true // jumped over the threshold block
 			}
 		}
@@ -148,6 +151,35 @@ func c18Gen(ch choose.Chooser, enum bool, maxN int) c18Case {
 		c.N = uint64(ch.Int(1, 20, "N"))
 	default:
 		c.N = uint64(ch.Int(1, 1000000, "N"))
+	}
+	if ch.Int(0, 7, "veryLongEpochs") == 0 {
+		// epochs of 2^58..2^62 blocks (the length comes unchecked from the Agglayer's clock configuration). The notifier
+		// compares float64 ratios, so the blocks of these sequences keep well away from the threshold (>= 2 % of an epoch).
+		c.N = uint64(1) << uint(choose.Pick(ch, []int{58, 60, 62}, "log2N"))
+		c.Start = uint64(ch.Int(0, 1000, "start"))
+		c.Pct = uint64(choose.Pick(ch, []int{1, 25, 50, 75, 99}, "pct"))
+		unit := c.N / 1000
+		epochs := 4
+		if c.N == 1<<62 {
+			epochs = 2 // block numbers stay below 2^64
+		}
+		for e := 0; e < epochs; e++ {
+			if ch.Int(0, 3, "skipEpoch") == 0 {
+				continue
+			}
+			for _, permille := range []uint64{10, 100, 300, 600, 900, 995} {
+				if diff := int64(permille) - int64(c.Pct)*10; diff > -20 && diff < 20 {
+					continue
+				}
+				if ch.Bool("seeBlock") {
+					c.Seq = append(c.Seq, c.Start+uint64(e)*c.N+permille*unit)
+				}
+			}
+		}
+		if len(c.Seq) == 0 {
+			c.Seq = []uint64{c.Start + 300*unit}
+		}
+		return c
 	}
 	switch ch.Int(0, 2, "startkind") {
 	case 0:
